@@ -123,6 +123,9 @@ def gen_series(rng):
         k = rng.randint(-12, 12)
         if r < 0.25:
             flags.add('on-level')
+            if rng.random() < 0.4:
+                # the level as a logger prints it (a decimal number), not as k * step rounds
+                return float(repr(round(k * step, 6)))
             return k * step
         if r < 0.35:
             flags.add('ulp')
